@@ -289,3 +289,10 @@ pub fn replay_main(registry: &[(&str, fn())]) -> ! {
         }
     }
 }
+
+/// Stub for `core::fmt::write` (`#[kani::stub(core::fmt::write, vsupport::fmt_write_stub)]`):
+/// formatting is never the subject of a harness, and the formatting machinery (padding, char
+/// counting, memchr) costs the symbolic executor minutes per reachable `format!`/`eprintln!`.
+pub fn fmt_write_stub(_out: &mut dyn core::fmt::Write, _args: core::fmt::Arguments<'_>) -> core::fmt::Result {
+    Ok(())
+}
